@@ -321,8 +321,43 @@ fn node_strategy() -> impl Strategy<Value = Node> {
     })
 }
 
+/// A conditional whose nesting reaches exactly `d` levels along one spine: at every level the next
+/// level sits in a randomly chosen branch (selected or not), surrounded by small random material.
+/// The free recursive strategy above almost never gets deeper than 4.
+fn spine_strategy(d: u32) -> BoxedStrategy<Node> {
+    if d == 0 {
+        return Just(Node::Tag).boxed();
+    }
+    let small = || proptest::collection::vec(prop_oneof![4 => Just(Node::Tag), 1 => Just(Node::JunkOpen), 1 => Just(Node::JunkClose), 1 => Just(Node::JunkOr), 1 => Just(Node::JunkElseFi)], 0..2);
+    (
+        kind_strategy(),
+        proptest::collection::vec(small(), 1..4),
+        proptest::option::weighted(0.7, small()),
+        (alias_strategy(), alias_strategy(), alias_strategy(), alias_strategy()),
+        any::<u16>(),
+        any::<bool>(),
+        spine_strategy(d - 1),
+    )
+        .prop_map(|(kind, mut branches, mut else_, alias, pos, before, child)| {
+            let slots = branches.len() + usize::from(else_.is_some());
+            let k = ((pos as usize) * slots) >> 16;
+            let target = if k < branches.len() { &mut branches[k] } else { else_.as_mut().unwrap() };
+            if before {
+                target.insert(0, child);
+            } else {
+                target.push(child);
+            }
+            Node::Cond { kind, branches, else_, alias }
+        })
+        .boxed()
+}
+
 fn cond_case_strategy() -> impl Strategy<Value = CondCase> {
-    ([int_strategy(), int_strategy(), int_strategy()], proptest::collection::vec(node_strategy(), 1..4)).prop_map(|(regs, body)| CondCase { regs, body })
+    let body = prop_oneof![
+        3 => proptest::collection::vec(node_strategy(), 1..4),
+        1 => (1u32..7).prop_flat_map(|d| (proptest::collection::vec(Just(Node::Tag), 0..2), spine_strategy(d)).prop_map(|(mut v, n)| { v.push(n); v.push(Node::Tag); v })),
+    ];
+    ([int_strategy(), int_strategy(), int_strategy()], body).prop_map(|(regs, body)| CondCase { regs, body })
 }
 
 fn cond_oracle(ctx: &Ctx, c: &CondCase, case: &mut Case) -> Verdict {
@@ -330,6 +365,7 @@ fn cond_oracle(ctx: &Ctx, c: &CondCase, case: &mut Case) -> Verdict {
     case.note = Some(b.text.clone());
     case.class_if(b.max_depth >= 3, "depth>=3");
     case.class_if(b.max_depth >= 5, "depth>=5");
+    case.class_if(b.max_depth >= 6, "depth>=6");
     case.class_if(b.nontrivial, "nontrivial");
     case.class_if(b.active_alias_in_skipped, "active-character alias of a conditional primitive in skipped text");
     let r = texvm::run_program(&VmOptions::default(), &b.text);
